@@ -6,10 +6,14 @@ from vlib import env
 env.setup()
 ids = [json.loads(l)['id'] for l in open(os.path.join(env.VERIF, 'properties.jsonl'))]
 mods = {}
+accepted = set(open(os.path.join(env.VERIF, 'props', 'REGISTERED')).read().split())
 for f in sorted(os.listdir(os.path.join(env.VERIF, 'props'))):
     if f.startswith('c') and f.endswith('.py'):
-        m = importlib.import_module('props.' + f[:-3])
-        if getattr(m, 'REGISTER', True):
+        try:
+            m = importlib.import_module('props.' + f[:-3])
+        except Exception as e:
+            print('skip %s: %s' % (f, e)); continue
+        if m.ID in accepted:
             mods[m.ID] = m
 baseline = json.load(open('/root/.vp/BASELINE.json'))['cmd']
 man = {
